@@ -806,8 +806,19 @@ def gen_shape_program(rng, name, kf_shapes=False):
             ins.append((ext, reg, reg))
         ins.extend([("xor", "acc", "acc", reg), ("mul", "acc", "acc", 1000003)])
     vs = ["v0", "v1", "v2", "v3"]
+    fp = r.chance(1, 4)      # programs with double branches have no MirCore oracle: builds/engines only
+    if fp:
+        ins += [("dmov", "dz", ("d", 0.0)), ("ddiv", "dn", "dz", "dz"), ("dneg", "dm", "dz")]
     for _ in range(6 + r.below(10)):
-        k = r.below(12)
+        k = r.below(14 if fp else 12)
+        if k >= 12:      # double branch over a jump, NaN / -0 / argument operands
+            op = r.choice(["dbeq", "dbne", "dblt", "dble", "dbgt", "dbge"])
+            u, w = r.choice(["dn", "dz", "dm", "x0", "x1"]), r.choice(["dn", "dz", "dm", "x0", "x1"])
+            l1, l2 = lab(), lab()
+            ins += [("mov", "t", 1), (op, l1, u, w), ("jmp", l2), ("label", l1), ("add", "t", "t", 5), ("label", l2), ("add", "t", "t", 16)]
+            fold("t")
+            stat("fp_br_over_jmp")
+            continue
         x, y = r.choice(vs), r.choice(vs)
         if k <= 2:       # shortcut rows, near misses, swapped operand position
             c = r.choice([0, 1, 0, 1, 2, -1])
@@ -886,5 +897,6 @@ def gen_shape_program(rng, name, kf_shapes=False):
             stat("mem_mem")
     ins += [("ret", "acc")]
     locs = ["acc", "v0", "v1", "v2", "v3", "t"] + [f"p{j}" for j in range(6)]
-    P.funcs.append((en, "i64, p:buf, i64:a0, i64:a1, i64:a2, i64:a3, d:x0, d:x1", [f"i64:{x}" for x in locs], ins))
+    P.funcs.append((en, "i64, p:buf, i64:a0, i64:a1, i64:a2, i64:a3, d:x0, d:x1",
+                    [f"i64:{x}" for x in locs] + (["d:dz", "d:dn", "d:dm"] if fp else []), ins))
     return P, [en]
